@@ -73,3 +73,13 @@ package docx
 //@   ensures row_width_is_bounded: len(res.Cells) == len(row.Cells) && docxRowWidth(res.Cells, len(res.Cells)) <= maxTableColumns + len(res.Cells)
 //@   loop 0:
 //@     invariant len(parsed.Cells) == $i && width == docxRowWidth(parsed.Cells, len(parsed.Cells)) && 0 <= width && width <= maxTableColumns + $i
+
+// ---- C11: a body paragraph is deleted only when it EQUALS (after trimming) a non-empty line of a header or footer
+// part, and only for the side that was asked for; nothing is deleted otherwise ----
+//@ func (*Reader) shouldExcludeParagraph results (r0)
+//@   property C11
+//@   flags nosafety
+//@   atreturn#3 equals_a_header_line: opts.ExcludeHeaders && headerLine != "" && sameseq(trimmedText, headerLine)
+//@   atreturn#4 equals_a_footer_line: opts.ExcludeFooters && footerLine != "" && sameseq(trimmedText, footerLine)
+//@   ensures nothing_asked_nothing_deleted: !opts.ExcludeHeaders && !opts.ExcludeFooters ==> !r0
+//@   ensures empty_text_is_kept: text == "" ==> !r0
